@@ -17,14 +17,20 @@ Cfgs == [kind : {"call", "push"}, marker : {"none", "secure"}, accept : {"absent
          prev : {"none", "secure"},    \* an earlier secure call on the same session (its per-message plugin state must not outlive it)
          swapseed : BOOLEAN,           \* the receiving session carries an entry in its swap, as an accept plugin leaves one
          conc : BOOLEAN,               \* the exchange is one of 240 made by 8 goroutines on the session at the same time
-         hret : {"nil", "okstatus"}]   \* the handler reports success with a nil status, or with a status object of code 0
+         hret : {"nil", "okstatus"},   \* the handler reports success with a nil status, or with a status object of code 0
+         nbr : {"none", "before", "after", "route"},  \* a neighbouring plugin of both peers, registered before / after the secure plugin, or (serving side) on the routes
+         nret : {"nil", "okstatus"}]   \* what every read hook (header, pre-body, post-body of CALL / PUSH / REPLY) and every write hook of the neighbour returns
 \* (hret has no place in the oracle: a success is a success)
+\* (nbr / nret have no place in the oracle either: a neighbour that lets every message pass, whichever way it says so,
+\* changes nothing of what the statement demands of the secure plugin)
 \* resend: the message is the first one after a connection loss on a redial-enabled session, so the session
 \* redials inside Call / Push and writes the message again; the plugin must not process it twice
 CfgOK(c) == /\ (c.kind = "push" => ~c.enforce /\ c.accept = "absent")
             /\ (c.resend => c.keys = "equal" /\ c.keylen = 16 /\ c.body = "short" /\ c.accept = "absent" /\ ~c.enforce)
             /\ (c.prev # "none" \/ c.swapseed => c.keylen = 16 /\ c.body = "short" /\ c.accept = "absent" /\ ~c.enforce /\ ~c.resend /\ ~c.conc)
             /\ (c.hret = "okstatus" => c.kind = "call" /\ c.keylen = 16 /\ c.body = "short" /\ ~c.resend /\ c.prev = "none" /\ ~c.swapseed /\ ~c.conc)
+            /\ (c.nbr = "none" => c.nret = "nil")
+            /\ (c.nbr # "none" => c.keylen = 16 /\ c.body = "short" /\ ~c.resend /\ c.prev = "none" /\ ~c.swapseed /\ ~c.conc /\ c.hret = "nil")
             /\ (c.conc => c.kind = "call" /\ c.keys = "equal" /\ c.keylen = 16 /\ c.body = "short" /\ ~c.enforce /\ ~c.resend
                            /\ c.accept \in {"absent", "true"} /\ (c.marker = "secure" \/ c.accept = "true"))
 ReqEnc(c)  == c.marker = "secure"
@@ -47,7 +53,7 @@ Spec == Init /\ [][Run]_vars
 OracleSane == /\ (ReqEnc(c) /\ ~KeysOK(c) => ~Invoked(c))
               /\ (c.marker = "none" /\ c.accept # "true" /\ ~c.enforce /\ c.kind = "call" => ReplyEnc(c) = "no" /\ Status(c) = "ok")
 Emit == Export = "" \/
-  Serialize(ToJson([kind |-> c.kind, marker |-> c.marker, accept |-> c.accept, enforce |-> c.enforce, keys |-> c.keys, keylen |-> c.keylen, resend |-> c.resend, prev |-> c.prev, swapseed |-> c.swapseed, conc |-> c.conc, hret |-> c.hret,
+  Serialize(ToJson([kind |-> c.kind, marker |-> c.marker, accept |-> c.accept, enforce |-> c.enforce, keys |-> c.keys, keylen |-> c.keylen, resend |-> c.resend, prev |-> c.prev, swapseed |-> c.swapseed, conc |-> c.conc, hret |-> c.hret, nbr |-> c.nbr, nret |-> c.nret,
                     codec |-> c.codec, body |-> c.body, reqenc |-> ReqEnc(c), invoked |-> Invoked(c), replyenc |-> ReplyEnc(c), status |-> Status(c)]) \o "\n", Export,
             [format |-> "TXT", charset |-> "UTF-8", openOptions |-> <<"WRITE", "CREATE", "APPEND">>]).exitValue = 0
 =============================================================================
